@@ -650,6 +650,103 @@ def agree_dict(x, m, full=False):
 
 
 # ---------------------------------------------------------------------------
+# long lists (two-digit indices) and nested multi-path batches
+# ---------------------------------------------------------------------------
+def long_item(rec, n):
+  """Every two-path batch rebind on a list of n >= 11 elements (indices address the pre-state)."""
+  sp = ListSpace(99)
+  kinds = (7, ('INS', 8), 'MISSING')
+  for i, j in itertools.combinations(range(0, n + 1), 2):
+    for a in kinds:
+      for b in kinds:
+        for order in (0, 1):
+          pairs = ((i, a), (j, b)) if order == 0 else ((j, b), (i, a))
+          m = list(range(100, 100 + n))
+          x = pg.List(list(m))
+          op = ('rebind', pairs)
+          rm = outcome(lambda: sp._model(m, op))          # pylint: disable=cell-var-from-loop,protected-access
+          ri = outcome(lambda: sp._impl(dict(x=x), op))   # pylint: disable=cell-var-from-loop,protected-access
+          rec.evals += 1
+          rec.trans += 1
+          tr = dict(kind='long', n=n, pairs=[list(p) for p in pairs])
+          kind = '+'.join(('ins' if isinstance(t, tuple) else 'del' if t == 'MISSING' else 'set') + ('@end' if k >= n else '')
+                          for k, t in sorted(pairs))
+          if rm[0] != ri[0]:
+            rec.viol(f'list/rebind/long:{kind}/outcome', f'list(range(100, {100 + n})) rebind {dict(pairs)!r}: python model {rm!r}, pg.List {_short(ri)}', tr)
+          elif plain(x) != m:
+            rec.viol(f'list/rebind/long:{kind}/content', f'list(range(100, {100 + n})) rebind {dict(pairs)!r}: model {m!r}, pg.List {plain(x)!r}', tr)
+          else:
+            rec.nt(('long', n, kind))
+
+
+NEST_PATHS = {
+    'dict': (('a.x', 'a', 'a.y', 'a.z'), lambda: {'a': {'x': 0, 'y': 0}, 'k': 5}),
+    'list-in-dict': (('b[0][0]', 'b[0]', 'b[0][1]', 'b[1]'), lambda: {'b': [[0, 1], 2], 'k': 5}),
+}
+NEST_VALUES = (1, 'D', 'L', 'MISSING')
+
+
+def _nested_model(m, pairs):
+  """Items of a batch are applied one after the other, each to the container it finds at that moment."""
+  for path, tok in pairs:
+    keys = pg.KeyPath.parse(path).keys
+    cur = m
+    for k in keys[:-1]:
+      if isinstance(cur, dict):
+        cur = cur[k]                 # KeyError if absent
+      elif isinstance(cur, list):
+        if not isinstance(k, int):
+          raise KeyError(k)
+        cur = cur[k]
+      else:
+        raise KeyError(k)            # writing below a leaf
+    k = keys[-1]
+    if isinstance(cur, dict):
+      if tok == 'MISSING':
+        cur.pop(k, None)
+      else:
+        cur[k] = mval(tok)
+    elif isinstance(cur, list):
+      if not isinstance(k, int):
+        raise KeyError(k)
+      if tok == 'MISSING':
+        if k < len(cur):
+          del cur[k]
+      elif k >= len(cur):
+        cur.append(mval(tok))
+      else:
+        cur[k] = mval(tok)
+    else:
+      raise KeyError(k)
+
+
+def nested_item(rec, name):
+  """Ordered batches of three paths where a container is written below, replaced and written below again."""
+  paths, mk = NEST_PATHS[name]
+  for ps in itertools.permutations(paths, 3):
+    for vs in itertools.product(NEST_VALUES, repeat=3):
+      pairs = tuple(zip(ps, vs))
+      m = mk()
+      x = pg.Dict(mk())
+      rm = outcome(lambda: _nested_model(m, pairs))                                   # pylint: disable=cell-var-from-loop
+      ri = outcome(lambda: x.rebind(dict(pairs_val(pairs)), raise_on_no_change=False))  # pylint: disable=cell-var-from-loop
+      rec.evals += 1
+      rec.trans += 1
+      tr = dict(kind='nested', name=name, pairs=[list(p) for p in pairs])
+      shape = '>'.join('below' if len(pg.KeyPath.parse(p).keys) > len(pg.KeyPath.parse(paths[1]).keys) else 'at' for p in ps)
+      if rm[0] != ri[0]:
+        rec.viol(f'dict/rebind/nested:{name}/{shape}/outcome', f'{mk()!r} rebind {list(pairs)!r}: model {rm!r}, pg.Dict {_short(ri)}', tr)
+      elif rm[0] == 'ok' and plain(x) != m:
+        rec.viol(f'dict/rebind/nested:{name}/{shape}/content', f'{mk()!r} rebind {list(pairs)!r}: model {m!r}, pg.Dict {plain(x)!r}', tr)
+      else:
+        rec.nt(('nested', name, shape, rm[0]))
+
+
+def pairs_val(pairs):
+  return [(p, val(t)) for p, t in pairs]
+
+
+# ---------------------------------------------------------------------------
 def spaces(tier):
   if tier == 'thorough':
     return [('list', ListSpace(4)), ('dict', DictSpace(3))]
@@ -660,7 +757,8 @@ def run(ctx):
   ctx.rule = ('explicit-state BFS to closure over (container content) states; every enabled operation of the '
               'list/dict API menu is executed on a fresh real pg.List/pg.Dict reached by replaying a history and '
               'in lock-step on a plain list/dict; distinct_nontrivial = distinct (operation kind, pre-state content) '
-              'pairs whose transition agreed with the model')
+              'pairs whose transition agreed with the model; plus every two-path batch rebind on lists of 11-12 elements and '
+              'every ordered three-path batch over a container, the paths below it and its replacement')
   ctx.assumptions += [
       'elements drawn from {0,1,2,[0]} (lists) / {0,1,[0]} (dicts); keys from ' + repr(KEYS),
       'length bounds: see coverage.bounds; operations that would exceed the bound (decided on the model) are not taken',
@@ -670,12 +768,18 @@ def run(ctx):
   for name, sp in spaces(ctx.tier):
     n = statespace.explore(ctx, sp, max_depth=12)
     bounds[name] = dict(states=n, bound=getattr(sp, 'lmax', None) or sp.dmax)
+  ctx.pmap(long_item, [11, 12] if not ctx.thorough else [11, 12, 13, 21], chunk=1)
+  ctx.pmap(nested_item, list(NEST_PATHS), chunk=1)
   ctx.note('bounds', bounds)
   ctx.sample(dict(init=[0, 1], hist=[['setslice', [None, None, -1], [1, 'L']], ['rebind', [[0, ['INS', 1]], [2, 'MISSING']]]]))
   ctx.sample(dict(init={'a': 0, 0: 1}, hist=[['update', [['a.b', 1], ['0', 'L']]], ['popitem']]))
 
 
 def replay(rec, data):
+  if data.get('kind') == 'long':
+    return long_item(rec, data['n'])
+  if data.get('kind') == 'nested':
+    return nested_item(rec, data['name'])
   sp = DictSpace(3) if data.get('space') == 'dict' else ListSpace(4)
   data = dict(data, init=statespace._tup(data['init']))
   statespace.replay_trace(sp, rec, data)
